@@ -299,7 +299,9 @@ class Def:
              "emplacers": self.t.emplacers}
         if self.kind == "struct":
             m["fields"] = [{"name": fn, "ty": t.rust, "offset": o, "size": t.size, "align": t.align, "sized": t.sized,
-                            "trivial": t.trivial, "kind": t.kind, "fty": t.fname, "default": t.default}
+                            "trivial": t.trivial, "kind": t.kind, "fty": t.fname, "default": t.default,
+                            "elem_size": (t.elem.size if t.kind == "vec" else (1 if t.kind == "string" else None)),
+                            "data_offset": getattr(t, "data_offset", None)}
                            for (fn, t), o in zip(self.fields, self.offsets)]
             if not self.sized:
                 m["last_field_offset"] = self.last_field_offset
@@ -410,6 +412,9 @@ def build(tier):
     us_n2 = D("USNest2", "struct", False, fields=[("a", U16), ("inner", us_n.t)], default=True)
     # padding in front of the last *sized* field and a tail that is less aligned than the prefix (fold_size!'s terminal arm, LAST_FIELD_OFFSET)
     us_pad = D("USPad", "struct", False, fields=[("a", U8), ("b", U32), ("c", vec_u8_u8)], default=True)
+    # the tail's granule (3-byte elements) does not tile the struct's alignment: as_bytes() of the struct must still cover the whole value
+    vec_tri_u8 = flatvec(array(U8, 3), U8)
+    us_tri = D("USTri", "struct", False, fields=[("id", U32), ("items", vec_tri_u8)], default=True)
     us_pad2 = D("USPad2", "struct", False, fields=[("a", U8), ("b", U64), ("c", U16), ("s", str_u8)], default=True)
 
     # ---- unsized enums
